@@ -23,7 +23,7 @@ RULE = ("case = one table (codec family: all strings) or one (table, scoping con
 ASSUMPTIONS = ["reference tokenizer mc/ref/tbl.py", "table files written as HEX=text lines with LF, CR LF or CR line ends (text-mode universal newlines), with or without the final line end"]
 
 TEXTS = ["a", "b", "ab", "ba", "aa", "abc"]
-ALPH = ["a", "b", "c", "z", "[0x41]", "[0x7F]", "[", " "]
+ALPH = ["a", "b", "c", "z", "[0x41]", "[0x7F]", "[", " ", "="]
 UTBL = {"a": b"\x61", "b": b"\x62", "c": b"\x63"}
 ORG = 0x018000
 
@@ -64,6 +64,9 @@ def all_tables():
     # entry texts that begin or end with a blank, or are a single blank (the text is everything after '=')
     for extra in ({" a": b"\xD1"}, {" ": b"\x20", " a": b"\xD1"}, {"a ": b"\xD2"}, {"  ": b"\xD3", "a": b"\x10"}, {" a": b"\xD1", "a": b"\x10", "b": b"\x11"}):
         out.append(dict(extra))
+    # entry texts that contain '=' (the text is everything after the FIRST '=' of the line)
+    for extra in ({"=": b"\x3D", "a": b"\x10"}, {"a=b": b"\xF0", "a": b"\x10", "b": b"\x11"}, {"==": b"\xF1", "=": b"\x3D"}, {"=a": b"\xF2", "b": b"\x11"}):
+        out.append(dict(extra))
     # tables with a bare '[' entry: the [0xNN] escape still means a raw byte
     for k in (0, 1, 2, 3):
         for subset in itertools.combinations(range(len(TEXTS)), k):
@@ -84,8 +87,8 @@ def tables():
     return _TABLES
 
 
-def strings(maxlen, bracket=True, blank=False):
-    alph = [x for x in ALPH if (bracket or x != "[") and (blank or x != " ")]
+def strings(maxlen, bracket=True, blank=False, eq=False):
+    alph = [x for x in ALPH if (bracket or x != "[") and (blank or x != " ") and (eq or x != "=")]
     yield ""
     for n in range(1, maxlen + 1):
         for tup in itertools.product(alph, repeat=n):
@@ -147,7 +150,8 @@ def run_codec(ti, maxlen):
     evals = nt = rts = 0
     example = None
     # the lone '[' symbol is part of the string alphabet for tables that have a '[' entry and for every 16th other table
-    for s in strings(maxlen, bracket=("[" in entries or ti % 16 == 0), blank=any(" " in k for k in entries) or ti % 16 == 1):
+    for s in strings(maxlen, bracket=("[" in entries or ti % 16 == 0), blank=any(" " in k for k in entries) or ti % 16 == 1,
+                     eq=any("=" in k for k in entries) or ti % 16 == 2):
         exp, matched, esc = tbl.encode(entries, s)
         evals += 1
         if ov or esc or "z" in s or "c" in s:
